@@ -50,6 +50,15 @@ def run():
         acc.evaluations += r.get("inputs", 0); acc.traces += 1
         if r["why"]:
             v.fail("assets:" + r["spelling"], r)
+    outb = os.path.join(sub("out"), "loadbig.ndjson")
+    rc, txt, _ = go_overlay_test("v2", V2_SOURCES, "^TestVerifLoadBig$", env={"VERIF_OUT": outb}, timeout=900)
+    recs = read_ndjson(outb)
+    if vlib.build_failed(txt) or not recs:
+        raise vlib.Inconclusive("big-file driver failed:\n" + txt[-3000:])
+    for r in recs:
+        acc.traces += 1
+        if r["why"]:
+            v.fail("bigfile:" + r["spelling"], r)
     out3 = os.path.join(sub("out"), "default.ndjson")
     rc, txt, _ = go_overlay_test("v2/assets", ["assets/assets_driver_test.go"], "^TestVerifDefaultClassifier$", env={"VERIF_OUT": out3}, timeout=1800)
     recs = read_ndjson(out3)
@@ -59,6 +68,6 @@ def run():
     if recs[0]["why"]:
         v.fail("default", recs[0])
     rc = v.finish()
-    vlib.write_evidence(PID, acc.coverage("every set of <= MaxFiles files out of 104 candidates (depth 1..5, two names per level, suffixes .txt / bare txt / .md / .TXT) x 9 spellings of the directory (plain, trailing /, ./, absolute, `.` and `./` from inside, dir/., dir/../dir) with a fresh classifier, and x {keys registered before with other content, directory loaded before its files were edited}; directory names with a leading dot; materialised on disk; non-trivial = trees with at least one file at category/name/variant depth; plus the real assets directory under 4 spellings and DefaultClassifier vs LoadLicenses on all embedded documents", exhaustive=True),
+    vlib.write_evidence(PID, acc.coverage("every set of <= MaxFiles files out of 104 candidates (depth 1..5, two names per level, suffixes .txt / bare txt / .md / .TXT) x 11 spellings of the directory (plain, trailing /, ./, absolute, `.` and `./` from inside, dir/., dir/../dir, a symbolic link to it with and without trailing /) with a fresh classifier, and x {keys registered before with other content, directory loaded before its files were edited, an empty directory named zz.txt in the tree}; directory names with a leading dot; materialised on disk; non-trivial = trees with at least one file at category/name/variant depth; plus a 1.3 MiB corpus file and a corpus reached through a symbolic link in the middle of the path, the real assets directory under 4 spellings and DefaultClassifier vs LoadLicenses on all embedded documents", exhaustive=True),
         ["relative spellings are exercised with chdir", "trees with *.txt files deeper than category/name/variant are only required not to panic"], time.time() - t0, len(v.violations))
     return rc
